@@ -73,12 +73,32 @@ def _case(draw):
             "mult": draw(st.sampled_from([1, 1, 2])),
             "correlated": draw(st.sampled_from([False, False, True])) if n >= 2 else False,
             "mock": draw(st.sampled_from([False, False, True])) if n >= 2 else False,
+            # the spectrum obtained from propagated dynamics, by both routes of the calculator (short axes only)
+            "from_dynamics": draw(st.sampled_from([False, False, False, True])) if n >= 2 else False,
+            # all site energies equal and all couplings a fraction of a wavenumber: still delocalised eigenstates
+            "tiny_couplings": draw(st.sampled_from([False, False, False, True])) if n >= 2 else False,
             "quat": list(q), "perm": list(draw(st.permutations(list(range(n))))),
             "tensor": draw(st.booleans()) if n >= 2 else False}
 
 
 def strategy(tier):
     return _case()
+
+
+def grid(tier):
+    """A few fixed aggregates on which the rarer options are switched on at every seed."""
+    spec = {"E": [12000, 12210, 12090], "J": [[0, 130, -40], [130, 0, 70], [-40, 70, 0]],
+            "d": [[1.0, 0.0, 0.0], [0.0, 1.3, 0.0], [0.5, 0.2, 0.9]], "T": 280,
+            "bath": [{"ftype": "OverdampedBrownian", "reorg": 40 + 15 * i, "cortime": 50 + 10 * i, "matsubara": 12}
+                     for i in range(3)],
+            "time": [0.0, 240, 2.0]}
+    base = {"spec": spec, "molecule": False, "scale": 2.0, "split": None, "rebootstrap": False, "ground": None,
+            "diagonalized_before": False, "mult": 1, "correlated": False, "mock": False, "from_dynamics": False,
+            "tiny_couplings": False, "quat": [1, 2, 0, 1], "perm": [2, 0, 1], "tensor": False}
+    for opt in ("from_dynamics", "mock", "tiny_couplings", "correlated"):
+        yield dict(base, **{opt: True})
+    yield dict(base, mult=2)
+    yield dict(base, split=50, rebootstrap=True)
 
 
 def rotation(q):
@@ -167,6 +187,13 @@ def check_case(case, ctx):
     T = spec["T"]
     t0, nt, dt = spec["time"]
     molecule, tensor = case["molecule"], case["tensor"]
+    if case.get("tiny_couplings") and not molecule and n >= 2:
+        # (generic values: no exact degeneracy, which would leave the exciton basis - and with it the formula of the
+        # property - undetermined)
+        spec = dict(spec, E=[spec["E"][0] + 0.13 * i for i in range(n)],
+                    J=[[0 if i == j else (0.21 + 0.05 * min(i, j) + 0.03 * max(i, j)) * (-1 if (i + j) % 3 == 0 else 1)
+                        for j in range(n)] for i in range(n)])
+        ctx.label("tiny-couplings-degenerate-sites")
     ht = spec["bath"][0]["ftype"].endswith("HighTemperature")
     ctx.label("molecule" if molecule else "aggregate", "N=%d" % n, "odd" if nt % 2 else "even", "tensor" if tensor else "no-tensor",
               "HT" if ht else "OB")
@@ -275,21 +302,43 @@ def check_case(case, ctx):
                     m.set_transition_width((0, 1), 40.0 + 15.0 * i)
             agg.build()
             tm = qr.TimeAxis(0.0, 1000, 2.0)
+            atype0 = tm.atype
             calc = qr.MockAbsSpectrumCalculator(tm, system=agg)
             calc.bootstrap(rwa=agg.get_RWA_suggestion(), shape="Gaussian")
             raw = calc.calculate(raw=True)
             full = calc.calculate()
             with qr.energy_units("int"):
-                return numpy.array(raw.axis.data), numpy.array(raw.data), numpy.array(full.data)
+                return numpy.array(raw.axis.data), numpy.array(raw.data), numpy.array(full.data), atype0, tm.atype
         ok, mk = guarded(ctx, "mock-calculator", mock, tag)
         if ok:
-            wm, rawd, fulld = mk
+            wm, rawd, fulld, at0, at1 = mk
+            if at0 != at1:
+                # the time axis handed to the calculator is an input: other calculators may share it
+                ctx.fail("mock/time-axis-unchanged", tag, before=at0, after=at1)
             ctx.label("mock-calculator")
             if float(numpy.max(numpy.abs(rawd))) <= 0.0:
                 ctx.label("mock-calculator:empty-spectrum")
             else:
                 ctx.close("mock/raw-times-frequency-is-spectrum", numpy.real(rawd) * wm, numpy.real(fulld), rtol=1e-9,
                           scale=max(1e-300, float(numpy.max(numpy.abs(fulld)))), where=tag)
+
+    if case.get("from_dynamics") and not molecule and int(nt) <= 260 and n <= 3 and not correlated and not spec.get("ground"):
+        # two routes of the calculator from propagated dynamics: one propagation per Cartesian component, summed, and
+        # the alternative route; the same spectrum
+        def dyn():
+            agg = gens.make_aggregate(qr, spec)
+            ta2 = qr.TimeAxis(t0, int(nt), dt)
+            calc = qr.AbsSpectrumCalculator(ta2, system=agg)
+            prop = agg.get_ReducedDensityMatrixPropagator(ta2, relaxation_theory="stR", time_dependent=True)
+            calc.bootstrap(prop=prop)
+            a = calc.calculate(from_dynamics=True, raw=True)
+            b = calc.calculate(from_dynamics=True, alt=True, raw=True)
+            return numpy.array(a.data), numpy.array(b.data)
+        ok, ab = guarded(ctx, "from-dynamics", dyn, tag)
+        if ok:
+            ctx.label("from-dynamics")
+            ctx.close("from-dynamics/routes-agree", numpy.real(ab[0]), numpy.real(ab[1]), rtol=1e-8,
+                      scale=max(1e-300, float(numpy.max(numpy.abs(ab[1])))), where=tag)
 
     if "second" in extra:
         ctx.close("repeated-calculation-same-spectrum", extra["second"], S, rtol=1e-9,
